@@ -419,6 +419,7 @@ func C06Scenarios(tier string) []*Scenario {
 			out = append(out, buildC06(fmt.Sprintf("%05d", n), form, path, "", "C06", "C06"))
 		}
 	}
+	out = append(out, defaultWithExtendScenarios(60000, "C06")...)
 	return out
 }
 
